@@ -112,8 +112,8 @@ Section Step.
     intro E. apply rbind_err in E. destruct E as [E|[direct [_ E]]].
     - revert E. apply filter_map_r_not_err. intros p.
       destruct (wire_name p); [|discriminate].
-      destruct (assoc u m); [|discriminate].
-      intro E. apply rbind_err in E. destruct E as [E|[oe [_ E]]]; [exact (optional_not_err _ _ E)|discriminate].
+      destruct (assoc u m); [|destruct (p_state p); try discriminate];
+        (intro E; apply rbind_err in E; destruct E as [E|[oe [_ E]]]; [exact (optional_not_err _ _ E)|discriminate]).
     - apply rbind_err in E. destruct E as [E|[fl [_ E]]]; [|discriminate].
       revert E. apply filter_map_r_not_err. intros p.
       destruct (p_rename p); try discriminate.
@@ -634,32 +634,38 @@ Definition is_flatten (p : prop) : bool := match p_rename p with RFlatten => tru
 Definition wire_names (ps : list prop) : list ustring :=
   flat_map (fun p => match wire_name p with Some n => [n] | None => [] end) ps.
 
-(* a member the typing theorem covers: a direct member whose type is in the fragment and, unless the member is
-   required, implements Default (an absent member is rendered `Default::default()`), or ONE flattened map with
-   String keys *)
-Definition prop_simple (T : space) (g : nat) (fr : id -> bool) (p : prop) : bool :=
+(* a member the typing theorem covers: a direct member whose type is in the fragment and which, when absent from the
+   value, can be rendered: Optional members need a Default-implementing type (`Default::default()`), members with
+   their own default need that default to have been validated ([dok], what check_defaults establishes at
+   finalisation); or ONE flattened map with String keys *)
+Definition prop_simple (T : space) (g : nat) (dok : id -> json -> bool) (fr : id -> bool) (p : prop) : bool :=
   match p_rename p with
   | RFlatten =>
       match get_det T (p_ty p) with
       | Some (DMap k _) => match get_det T k with Some DString => fr (p_ty p) | _ => false end
       | _ => false
       end
-  | _ => fr (p_ty p) && (is_required p || defaultable T g (p_ty p))
+  | _ => fr (p_ty p) &&
+         match p_state p with
+         | PRequired => true
+         | POptional => defaultable T g (p_ty p)
+         | PDefault dv => dok (p_ty p) dv
+         end
   end.
-Definition props_simple (T : space) (g : nat) (fr : id -> bool) (ps : list prop) : bool :=
-  forallb (prop_simple T g fr) ps && distinct (map p_name ps) && distinct (wire_names ps) &&
+Definition props_simple (T : space) (g : nat) (dok : id -> json -> bool) (fr : id -> bool) (ps : list prop) : bool :=
+  forallb (prop_simple T g dok fr) ps && distinct (map p_name ps) && distinct (wire_names ps) &&
   (length (filter is_flatten ps) <=? 1)%nat.
 
-Definition variant_simple (T : space) (g : nat) (fr : id -> bool) (v : variant) : bool :=
+Definition variant_simple (T : space) (g : nat) (dok : id -> json -> bool) (fr : id -> bool) (v : variant) : bool :=
   negb (match v_ident v with [] => true | _ => false end) &&
   match v_det v with
   | VSimple => true
   | VItem t => fr t
   | VTuple ts => forallb fr ts
-  | VStruct ps => props_simple T g fr ps
+  | VStruct ps => props_simple T g dok fr ps
   end.
 
-Fixpoint tfrag (T : space) (g : nat) (fuel : nat) (t : id) {struct fuel} : bool :=
+Fixpoint tfrag (T : space) (g : nat) (dok : id -> json -> bool) (fuel : nat) (t : id) {struct fuel} : bool :=
   match fuel with
   | O => false
   | S n =>
@@ -668,19 +674,19 @@ Fixpoint tfrag (T : space) (g : nat) (fuel : nat) (t : id) {struct fuel} : bool 
       | Some (DInteger nm) => known_int nm
       | Some (DFloat nm) => negb (is_nonzero_name nm)
       | Some (DOption x) | Some (DBox x) | Some (DVec x) | Some (DSet x) | Some (DArray x _)
-      | Some (DNewtype _ _ x _) => tfrag T g n x
-      | Some (DTuple ts) => forallb (tfrag T g n) ts
-      | Some (DMap k v) => tfrag T g n k && tfrag T g n v
-      | Some (DStruct _ _ ps _) => props_simple T g (tfrag T g n) ps
+      | Some (DNewtype _ _ x _) => tfrag T g dok n x
+      | Some (DTuple ts) => forallb (tfrag T g dok n) ts
+      | Some (DMap k v) => tfrag T g dok n k && tfrag T g dok n v
+      | Some (DStruct _ _ ps _) => props_simple T g dok (tfrag T g dok n) ps
       | Some (DEnum _ _ tag vs _ _) =>
           match tag with TagUntagged => false | _ => true end &&
-          forallb (variant_simple T g (tfrag T g n)) vs && distinct (map v_ident vs)
+          forallb (variant_simple T g dok (tfrag T g dok n)) vs && distinct (map v_ident vs)
       | _ => false
       end
   end.
 
-Lemma tfrag_get : forall T g n t, tfrag T g n t = true -> exists d, get_det T t = Some d.
-Proof. intros T g n t H. destruct n; cbn in H; [discriminate|]. destruct (get_det T t); [eauto|discriminate]. Qed.
+Lemma tfrag_get : forall T g dok n t, tfrag T g dok n t = true -> exists d, get_det T t = Some d.
+Proof. intros T g dok n t H. destruct n; cbn in H; [discriminate|]. destruct (get_det T t); [eauto|discriminate]. Qed.
 
 Lemma typed_map : forall T g t k v kvs, get_det T t = Some (DMap k v) ->
   Forall (fun ab => expr_typed T g (fst ab) k = true /\ expr_typed T g (snd ab) v = true) kvs ->
@@ -772,10 +778,10 @@ Definition pinfo_of (T : space) (p : prop) : pinfo :=
 Lemma wire_name_none : forall p, wire_name p = None <-> p_rename p = RFlatten.
 Proof. intros p. unfold wire_name. destruct (p_rename p); split; intro H; try discriminate; reflexivity. Qed.
 
-Lemma aprops_simple : forall T g fr n p l,
-  prop_simple T g fr p = true -> all_props T n p = ROk l -> l = [pinfo_of T p].
+Lemma aprops_simple : forall T g dok fr n p l,
+  prop_simple T g dok fr p = true -> all_props T n p = ROk l -> l = [pinfo_of T p].
 Proof.
-  intros T g fr n p l Hs H. unfold pinfo_of. destruct n; cbn in H.
+  intros T g dok fr n p l Hs H. unfold pinfo_of. destruct n; cbn in H.
   - destruct (wire_name p) eqn:Ew; [inversion H; reflexivity|discriminate H].
   - destruct (wire_name p) eqn:Ew; [inversion H; reflexivity|].
     apply wire_name_none in Ew. unfold prop_simple in Hs. rewrite Ew in Hs.
@@ -783,14 +789,14 @@ Proof.
     inversion H. reflexivity.
 Qed.
 
-Lemma flat_map_r_simple : forall T g fr n ps l,
-  forallb (prop_simple T g fr) ps = true -> flat_map_r (all_props T n) ps = ROk l -> l = map (pinfo_of T) ps.
+Lemma flat_map_r_simple : forall T g dok fr n ps l,
+  forallb (prop_simple T g dok fr) ps = true -> flat_map_r (all_props T n) ps = ROk l -> l = map (pinfo_of T) ps.
 Proof.
-  intros T g fr n ps. induction ps as [|p ps IH]; intros l Hs H; cbn in H.
+  intros T g dok fr n ps. induction ps as [|p ps IH]; intros l Hs H; cbn in H.
   - inversion H. reflexivity.
   - cbn in Hs. apply andb_true_iff in Hs. destruct Hs as [Hp Hs].
     apply rbind_ok in H. destruct H as [a [Ha H]]. apply rbind_ok in H. destruct H as [b [Hb H]].
-    inversion H. rewrite (aprops_simple _ _ _ _ _ _ Hp Ha), (IH _ Hs Hb). reflexivity.
+    inversion H. rewrite (aprops_simple _ _ _ _ _ _ _ Hp Ha), (IH _ Hs Hb). reflexivity.
 Qed.
 
 Lemma names_of_pinfo : forall T ps, names_of (map (pinfo_of T) ps) = wire_names ps.
@@ -804,18 +810,18 @@ Lemma unnamed_cons : forall a l, unnamed_of (a :: l) = (unnamed_of [a] ++ unname
 Proof. intros a l. unfold unnamed_of. cbn. rewrite app_nil_r. reflexivity. Qed.
 
 (* the (at most one) flattened map's value type *)
-Lemma unnamed_one : forall T g fr ps t,
-  forallb (prop_simple T g fr) ps = true -> (length (filter is_flatten ps) <=? 1)%nat = true ->
+Lemma unnamed_one : forall T g dok fr ps t,
+  forallb (prop_simple T g dok fr) ps = true -> (length (filter is_flatten ps) <=? 1)%nat = true ->
   In t (unnamed_of (map (pinfo_of T) ps)) ->
   forall p, In p ps -> is_flatten p = true ->
   exists k, get_det T (p_ty p) = Some (DMap k t).
 Proof.
-  intros T g fr ps. induction ps as [|q ps IH]; intros t Hs Hl Hin p Hp Hf; [destruct Hp|].
+  intros T g dok fr ps. induction ps as [|q ps IH]; intros t Hs Hl Hin p Hp Hf; [destruct Hp|].
   cbn in Hs. apply andb_true_iff in Hs. destruct Hs as [Hq Hs].
-  assert (Hun : forall q', prop_simple T g fr q' = true -> is_flatten q' = false -> unnamed_of [pinfo_of T q'] = []).
+  assert (Hun : forall q', prop_simple T g dok fr q' = true -> is_flatten q' = false -> unnamed_of [pinfo_of T q'] = []).
   { intros q' _ Hnf. unfold pinfo_of, is_flatten in *. destruct (wire_name q') eqn:Ew; [reflexivity|].
     apply wire_name_none in Ew. rewrite Ew in Hnf. discriminate. }
-  assert (Hfl : forall q', prop_simple T g fr q' = true -> is_flatten q' = true ->
+  assert (Hfl : forall q', prop_simple T g dok fr q' = true -> is_flatten q' = true ->
                 exists k v, get_det T (p_ty q') = Some (DMap k v) /\ unnamed_of [pinfo_of T q'] = [v]).
   { intros q' Hq' Hff. unfold is_flatten in Hff. unfold prop_simple in Hq'. unfold pinfo_of.
     destruct (p_rename q') eqn:Er; try discriminate Hff.
@@ -853,15 +859,18 @@ Section StructStep.
   Variable vrec : id -> json -> res kind.
   Variable orec : id -> json -> res expr.
   Variable fr : id -> bool.
+  Variable dok : id -> json -> bool.
   Hypothesis IHrec : forall t x k, vrec t x = ROk k -> fr t = true ->
     exists e, orec t x = ROk e /\ expr_typed T g e t = true.
+  Hypothesis IHdef : forall t dv, dok t dv = true -> fr t = true ->
+    exists e, orec t dv = ROk e /\ expr_typed T g e t = true.
   Hypothesis Hfr_get : forall t, fr t = true -> exists d, get_det T t = Some d.
   Hypothesis Hmap : forall t k v m, get_det T t = Some (DMap k v) -> get_det T k = Some DString -> fr t = true ->
     (forall key x, In (key, x) m -> exists kk, vrec v x = ROk kk) ->
     exists e, orec t (JObj m) = ROk e /\ expr_typed T g e t = true.
 
   Lemma struct_step_typed : forall ps d k,
-    v_struct_props vrec (all_props T n) ps d = ROk k -> props_simple T g fr ps = true ->
+    v_struct_props vrec (all_props T n) ps d = ROk k -> props_simple T g dok fr ps = true ->
     exists fs, o_struct_props T orec ps d = ROk fs /\ fields_good T g ps fs.
   Proof.
     intros ps d k H Hs. unfold props_simple in Hs.
@@ -871,7 +880,7 @@ Section StructStep.
     unfold v_struct_props in H.
     apply rbind_ok in H. destruct H as [m [Hm H]]. apply of_opt_ok in Hm.
     apply rbind_ok in H. destruct H as [l [Hl H]].
-    pose proof (flat_map_r_simple _ _ _ _ _ _ Hall Hl) as El. subst l.
+    pose proof (flat_map_r_simple _ _ _ _ _ _ _ Hall Hl) as El. subst l.
     apply rbind_ok in H. destruct H as [u1 [He1 H]]. destruct u1.
     apply rbind_ok in H. destruct H as [u2 [He2 _]]. destruct u2.
     set (named := named_of (map (pinfo_of T) ps)) in *.
@@ -908,7 +917,11 @@ Section StructStep.
           | Some name =>
               match assoc name m with
               | Some x => rbind (optional (orec (p_ty p) x)) (fun oe => ROk (option_map (fun e => (FId (p_name p), e)) oe))
-              | None => ROk (Some (FId (p_name p), EDefault))
+              | None =>
+                  match p_state p with
+                  | PDefault dv => rbind (optional (orec (p_ty p) dv)) (fun oe => ROk (option_map (fun e => (FId (p_name p), e)) oe))
+                  | _ => ROk (Some (FId (p_name p), EDefault))
+                  end
               end
           end) qs = ROk dl /\
         length dl = length (filter (fun p => negb (is_flatten p)) qs) /\
@@ -923,21 +936,33 @@ Section StructStep.
         destruct (wire_name q) as [nm|] eqn:Ew.
         + assert (Enf : is_flatten q = false).
           { unfold is_flatten. unfold wire_name in Ew. destruct (p_rename q); try reflexivity. discriminate Ew. }
-          assert (Hqs' : fr (p_ty q) = true /\ (is_required q || defaultable T g (p_ty q)) = true).
+          assert (Hqs' : fr (p_ty q) = true /\
+                         match p_state q with
+                         | PRequired => true
+                         | POptional => defaultable T g (p_ty q)
+                         | PDefault dv => dok (p_ty q) dv
+                         end = true).
           { unfold is_flatten in Enf. destruct (p_rename q); try discriminate Enf; apply andb_true_iff in Hqs; exact Hqs. }
           destruct Hqs' as [Hfr Hdef].
           assert (Hent : exists e, (match assoc nm m with
                      | Some x => rbind (optional (orec (p_ty q) x)) (fun oe => ROk (option_map (fun e => (FId (p_name q), e)) oe))
-                     | None => ROk (Some (FId (p_name q), EDefault))
+                     | None =>
+                         match p_state q with
+                         | PDefault dv => rbind (optional (orec (p_ty q) dv)) (fun oe => ROk (option_map (fun e => (FId (p_name q), e)) oe))
+                         | _ => ROk (Some (FId (p_name q), EDefault))
+                         end
                      end) = ROk (Some (FId (p_name q), e)) /\ expr_typed T g e (p_ty q) = true).
           { destruct (assoc nm m) as [x|] eqn:Ea.
             - destruct (assoc_in _ _ _ _ Ea) as [k' [Hin' Ek]]. apply ustr_eqb_eq in Ek. subst k'.
               pose proof (F1 nm x Hin') as HF. rewrite (Hnamed q nm Hq Ew) in HF. destruct HF as [kk Hk].
               destruct (IHrec _ _ _ Hk Hfr) as [e [He Te]]. exists e. rewrite He. cbn. split; [reflexivity|exact Te].
-            - exists EDefault. split; [reflexivity|].
-              destruct (Hfr_get _ Hfr) as [dd Hdd]. cbn [expr_typed]. rewrite Hdd.
-              destruct (is_required q) eqn:Er; [|exact Hdef].
-              pose proof (F2 q nm Hq Ew Er) as Hk. unfold has_key in Hk. rewrite Ea in Hk. discriminate Hk. }
+            - destruct (p_state q) as [| |dv] eqn:Est.
+              + (* required and absent: impossible after validation *)
+                exfalso. assert (Er : is_required q = true) by (unfold is_required; rewrite Est; reflexivity).
+                pose proof (F2 q nm Hq Ew Er) as Hk. unfold has_key in Hk. rewrite Ea in Hk. discriminate Hk.
+              + exists EDefault. split; [reflexivity|].
+                destruct (Hfr_get _ Hfr) as [dd Hdd]. cbn [expr_typed]. rewrite Hdd. exact Hdef.
+              + destruct (IHdef _ _ Hdef Hfr) as [e [He Te]]. exists e. rewrite He. cbn. split; [reflexivity|exact Te]. }
           destruct Hent as [e [He Te]]. rewrite He. cbn [rbind]. rewrite Hdl. cbn [rbind].
           exists ((FId (p_name q), e) :: dl). cbn [filter]. rewrite Enf. cbn [negb length]. split; [reflexivity|].
           split; [cbn; rewrite Hlen; reflexivity|]. split.
@@ -987,7 +1012,7 @@ Section StructStep.
           { intros key x Hin. unfold extra in Hin. apply filter_In in Hin. destruct Hin as [Hin Hk].
             apply negb_true_iff in Hk. pose proof (F1 key x Hin) as HF1. rewrite (Hnotnamed key Hk) in HF1.
             destruct HF1 as [t [kk [Ht Hvk]]].
-            destruct (unnamed_one _ _ _ _ _ Hall Hone Ht q Hq Efq) as [k' Hk']. rewrite Hgq in Hk'. inversion Hk'; subst.
+            destruct (unnamed_one _ _ _ _ _ _ Hall Hone Ht q Hq Efq) as [k' Hk']. rewrite Hgq in Hk'. inversion Hk'; subst.
             eauto. }
           destruct (Hmap _ _ _ extra Hgq Hgk Hqs Hvals) as [e [He Te]]. rewrite He. cbn [optional rbind option_map].
           rewrite Hfl. cbn [rbind]. exists ((FId (p_name q), e) :: fl). split; [reflexivity|].
@@ -1117,21 +1142,21 @@ Section VariantStep.
 End VariantStep.
 
 (* ---------------------------------------------------------------- the typing theorem *)
-Definition TypedAt (re : ustring -> ustring -> bool) (T : space) (g n' : nat) : Prop :=
-  forall f t d k, validate_value re T f t d = ROk k -> tfrag T g n' t = true ->
+Definition TypedAt (re : ustring -> ustring -> bool) (T : space) (g : nat) (dok : id -> json -> bool) (n' : nat) : Prop :=
+  forall f t d k, validate_value re T f t d = ROk k -> tfrag T g dok n' t = true ->
     exists e, output_value T n' t d = ROk e /\ expr_typed T g e t = true.
 
-Lemma flat_map_typed : forall re T g n1 f,
-  (forall m, (m < n1)%nat -> TypedAt re T g m) ->
-  forall t k v mm, get_det T t = Some (DMap k v) -> get_det T k = Some DString -> tfrag T g n1 t = true ->
+Lemma flat_map_typed : forall re T g dok n1 f,
+  (forall m, (m < n1)%nat -> TypedAt re T g dok m) ->
+  forall t k v mm, get_det T t = Some (DMap k v) -> get_det T k = Some DString -> tfrag T g dok n1 t = true ->
     (forall key x, In (key, x) mm -> exists kk, validate_value re T f v x = ROk kk) ->
     exists e, output_value T n1 t (JObj mm) = ROk e /\ expr_typed T g e t = true.
 Proof.
-  intros re T g n1 f IH t k v mm Hg Hk Hf Hv.
+  intros re T g dok n1 f IH t k v mm Hg Hk Hf Hv.
   destruct n1 as [|m]; [discriminate Hf|]. cbn [tfrag] in Hf. rewrite Hg in Hf.
   apply andb_true_iff in Hf. destruct Hf as [Hfk Hfv].
   cbn [output_value]. rewrite Hg. cbn [output_det as_object of_opt rbind].
-  destruct (tfrag_get _ _ _ _ Hfv) as [dv Hdv]. rewrite Hk, Hdv.
+  destruct (tfrag_get _ _ _ _ _ Hfv) as [dv Hdv]. rewrite Hk, Hdv.
   assert (Hall : forall p, In p mm -> exists ab,
             (let '(key, x) := p in rbind (output_value T m k (JStr key)) (fun a => rbind (output_value T m v x) (fun b => ROk (a, b)))) = ROk ab /\
             (expr_typed T g (fst ab) k = true /\ expr_typed T g (snd ab) v = true)).
@@ -1144,33 +1169,41 @@ Proof.
   eexists. split; [reflexivity|]. exact (typed_map T g t k v kvs Hg Pk).
 Qed.
 
-Lemma split_props_simple : forall T g fr ps, props_simple T g fr ps = true -> distinct (map p_name ps) = true.
+Lemma split_props_simple : forall T g dok fr ps, props_simple T g dok fr ps = true -> distinct (map p_name ps) = true.
 Proof.
-  intros T g fr ps H. unfold props_simple in H. apply andb_true_iff in H. destruct H as [H _].
+  intros T g dok fr ps H. unfold props_simple in H. apply andb_true_iff in H. destruct H as [H _].
   apply andb_true_iff in H. destruct H as [H _]. apply andb_true_iff in H. destruct H as [_ H]. exact H.
 Qed.
 
-Theorem tfrag_typed : forall re T g n', TypedAt re T g n'.
+(* [dok] stands for "this member default was validated", which check_defaults establishes for every property in state
+   Default(v) when the type is finalised *)
+Definition defaults_validated (re : ustring -> ustring -> bool) (T : space) (dok : id -> json -> bool) : Prop :=
+  forall t dv, dok t dv = true -> exists f k, validate_value re T f t dv = ROk k.
+
+Theorem tfrag_typed : forall re T g dok, defaults_validated re T dok -> forall n', TypedAt re T g dok n'.
 Proof.
-  intros re T g n'. induction n' as [n' IHs] using lt_wf_ind. unfold TypedAt. intros f t d k H Hf.
+  intros re T g dok Hdok n'. induction n' as [n' IHs] using lt_wf_ind. unfold TypedAt. intros f t d k H Hf.
   destruct n' as [|n1]; [discriminate Hf|]. destruct f as [|n]; [discriminate H|].
-  assert (IH : TypedAt re T g n1) by (apply IHs; lia).
-  assert (IHm : forall m, (m < n1)%nat -> TypedAt re T g m) by (intros m Hm; apply IHs; lia).
+  assert (IH : TypedAt re T g dok n1) by (apply IHs; lia).
+  assert (IHm : forall m, (m < n1)%nat -> TypedAt re T g dok m) by (intros m Hm; apply IHs; lia).
+  assert (IHdef : forall t dv, dok t dv = true -> tfrag T g dok n1 t = true ->
+            exists e, output_value T n1 t dv = ROk e /\ expr_typed T g e t = true).
+  { intros t' dv Hd Hf'. destruct (Hdok _ _ Hd) as [f0 [k0 Hv0]]. exact (IH _ _ _ _ Hv0 Hf'). }
   cbn [validate_value] in H. cbn [tfrag] in Hf. cbn [output_value].
   destruct (get_det T t) as [det|] eqn:Hg; [|discriminate H].
   (* hypotheses of the struct / variant steps, at the member level *)
-  assert (IHrec : forall t x k, validate_value re T n t x = ROk k -> tfrag T g n1 t = true ->
+  assert (IHrec : forall t x k, validate_value re T n t x = ROk k -> tfrag T g dok n1 t = true ->
             exists e, output_value T n1 t x = ROk e /\ expr_typed T g e t = true).
   { intros t' x' k' Hk' Hf'. exact (IH _ _ _ _ Hk' Hf'). }
-  assert (Hget : forall t, tfrag T g n1 t = true -> exists d, get_det T t = Some d) by (intros; eapply tfrag_get; eauto).
-  assert (Hmapn : forall t k v m, get_det T t = Some (DMap k v) -> get_det T k = Some DString -> tfrag T g n1 t = true ->
+  assert (Hget : forall t, tfrag T g dok n1 t = true -> exists d, get_det T t = Some d) by (intros; eapply tfrag_get; eauto).
+  assert (Hmapn : forall t k v m, get_det T t = Some (DMap k v) -> get_det T k = Some DString -> tfrag T g dok n1 t = true ->
             (forall key x, In (key, x) m -> exists kk, validate_value re T n v x = ROk kk) ->
             exists e, output_value T n1 t (JObj m) = ROk e /\ expr_typed T g e t = true).
   { intros. eapply flat_map_typed; eauto. }
   destruct det; try discriminate Hf; cbn [validate_det] in H; cbn [output_det].
   - (* enum *)
     apply andb_true_iff in Hf. destruct Hf as [Hf Hdi]. apply andb_true_iff in Hf. destruct Hf as [Htag Hvs].
-    assert (Hvar : forall var, In var vs -> variant_simple T g (tfrag T g n1) var = true /\
+    assert (Hvar : forall var, In var vs -> variant_simple T g dok (tfrag T g dok n1) var = true /\
                                  find_variant_ident (v_ident var) vs = Some var).
     { intros var Hin. split; [exact (proj1 (forallb_forall _ _) Hvs var Hin)|exact (find_ident_distinct _ _ Hdi Hin)]. }
     destruct tag; try discriminate Htag.
@@ -1190,8 +1223,8 @@ Proof.
            eexists. split; [reflexivity|]. eapply typed_varitem; eauto.
         -- destruct (tuple_step_typed T g _ _ _ IHrec _ _ _ H Hvd) as [es [Hes Pes]]. rewrite Hes. cbn [rbind].
            eexists. split; [reflexivity|]. eapply typed_vartuple; eauto.
-        -- destruct (struct_step_typed T g n _ _ _ IHrec Hget Hmapn _ _ _ H Hvd) as [fs [Hfs Gfs]]. rewrite Hfs. cbn [rbind].
-           eexists. split; [reflexivity|]. eapply typed_varstruct; eauto. exact (split_props_simple _ _ _ _ Hvd).
+        -- destruct (struct_step_typed T g n _ _ _ _ IHrec IHdef Hget Hmapn _ _ _ H Hvd) as [fs [Hfs Gfs]]. rewrite Hfs. cbn [rbind].
+           eexists. split; [reflexivity|]. eapply typed_varstruct; eauto. exact (split_props_simple _ _ _ _ _ Hvd).
     + (* internal *)
       unfold v_internal in H. unfold o_internal.
       apply rbind_ok in H. destruct H as [m [Hm H]]. rewrite Hm. cbn [rbind].
@@ -1202,8 +1235,8 @@ Proof.
       apply andb_true_iff in Hvs1. destruct Hvs1 as [Hid Hvd]. rewrite (var_ident_ok _ Hid). cbn [rbind].
       destruct (v_det var) eqn:Ed; try discriminate H.
       * eexists. split; [reflexivity|]. eapply typed_varunit; eauto.
-      * destruct (struct_step_typed T g n _ _ _ IHrec Hget Hmapn _ _ _ H Hvd) as [fs [Hfs Gfs]]. rewrite Hfs. cbn [rbind].
-        eexists. split; [reflexivity|]. eapply typed_varstruct; eauto. exact (split_props_simple _ _ _ _ Hvd).
+      * destruct (struct_step_typed T g n _ _ _ _ IHrec IHdef Hget Hmapn _ _ _ H Hvd) as [fs [Hfs Gfs]]. rewrite Hfs. cbn [rbind].
+        eexists. split; [reflexivity|]. eapply typed_varstruct; eauto. exact (split_props_simple _ _ _ _ _ Hvd).
     + (* adjacent *)
       unfold v_adjacent in H. unfold o_adjacent.
       apply rbind_ok in H. destruct H as [m [Hm H]]. rewrite Hm. cbn [rbind].
@@ -1215,11 +1248,11 @@ Proof.
       * eexists. split; [reflexivity|]. eapply typed_varunit; eauto.
       * destruct (tuple_step_typed T g _ _ _ IHrec _ _ _ H Hvd) as [es [Hes Pes]]. rewrite Hes. cbn [rbind].
         eexists. split; [reflexivity|]. eapply typed_vartuple; eauto.
-      * destruct (struct_step_typed T g n _ _ _ IHrec Hget Hmapn _ _ _ H Hvd) as [fs [Hfs Gfs]]. rewrite Hfs. cbn [rbind].
-        eexists. split; [reflexivity|]. eapply typed_varstruct; eauto. exact (split_props_simple _ _ _ _ Hvd).
+      * destruct (struct_step_typed T g n _ _ _ _ IHrec IHdef Hget Hmapn _ _ _ H Hvd) as [fs [Hfs Gfs]]. rewrite Hfs. cbn [rbind].
+        eexists. split; [reflexivity|]. eapply typed_varstruct; eauto. exact (split_props_simple _ _ _ _ _ Hvd).
   - (* struct *)
-    destruct (struct_step_typed T g n _ _ _ IHrec Hget Hmapn _ _ _ H Hf) as [fs [Hfs Gfs]]. rewrite Hfs. cbn [rbind].
-    eexists. split; [reflexivity|]. eapply typed_struct; eauto. exact (split_props_simple _ _ _ _ Hf).
+    destruct (struct_step_typed T g n _ _ _ _ IHrec IHdef Hget Hmapn _ _ _ H Hf) as [fs [Hfs Gfs]]. rewrite Hfs. cbn [rbind].
+    eexists. split; [reflexivity|]. eapply typed_struct; eauto. exact (split_props_simple _ _ _ _ _ Hf).
   - (* newtype *)
     apply rbind_ok in H. destruct H as [k' [Hk _]].
     destruct (IHrec _ _ _ Hk Hf) as [e [He Te]]. rewrite He. cbn.
@@ -1472,9 +1505,10 @@ Proof.
     cbn. apply ustr_eqb_refl.
 Qed.
 
-(* ------------------------------------------------------------------ finding C06-F12 (still open) *)
-(* Pt { x : i64 (required), y : i64 with its own default 7 }: the default {"x":1} validates and renders
-   `Pt { x: 1_i64, y: Default::default() }` -- the member's own default 7 is not used *)
+(* ------------------------------------------------------------------ ex finding C06-F12 (fixed by a08c818) *)
+(* Pt { x : i64 (required), y : i64 with its own default 7 }: the default {"x":1} validates and now renders
+   `Pt { x: 1_i64, y: 7_i64 }` -- typed, free of `Default::default()` fill-ins of defaulted members, and denoting
+   {"x":1,"y":7}, which is [approx] the schema default (y is a filled nested default) *)
 Definition Tf12 : space := mk_space [
   (1, ent (DInteger (u "i64")));
   (2, ent (DStruct (u "Pt") None [mkProp (u "x") TypeIR.RNone PRequired 1;
@@ -1482,10 +1516,11 @@ Definition Tf12 : space := mk_space [
 ]%N.
 Definition Known_F12 (T : space) (e : expr) : Prop := expr_any (is_f12 T) e = true.
 
-Lemma nested_default_fill_refuted :
-  exists T t d k e, validate_value re0 T 3 t d = ROk k /\ output_value T 3 t d = ROk e /\ Known_F12 T e /\
-                    e = EStruct (u "Pt") [(FId (u "x"), ENum (JInt 1) (u "i64")); (FId (u "y"), EDefault)].
-Proof.
-  exists Tf12, 2, (JObj [(u "x", JInt 1)]), KSpecific. eexists.
-  split; [vm_compute; reflexivity|]. split; [vm_compute; reflexivity|]. split; [vm_compute; reflexivity|reflexivity].
-Qed.
+Lemma nested_default_fill_example :
+  exists e, output_value Tf12 3 2 (JObj [(u "x", JInt 1)]) = ROk e /\
+            e = EStruct (u "Pt") [(FId (u "x"), ENum (JInt 1) (u "i64")); (FId (u "y"), ENum (JInt 7) (u "i64"))] /\
+            expr_typed Tf12 3 e 2 = true /\ expr_any (is_f12 Tf12) e = false /\
+            eval_expr Tf12 e = Some (JObj [(u "x", JInt 1); (u "y", JInt 7)]) /\
+            approx (JObj [(u "x", JInt 1)]) (JObj [(u "x", JInt 1); (u "y", JInt 7)]) = true.
+Proof. eexists. repeat split; vm_compute; reflexivity. Qed.
+
